@@ -33,16 +33,17 @@ import (
 const Prop = "C14"
 
 type driver struct {
-	w      *world.World
-	pools  []sdk.AccAddress
-	distr  sdk.AccAddress
-	tier   string
+	w     *world.World
+	pools []sdk.AccAddress
+	distr sdk.AccAddress
+	tier  string
 }
 
 func e18(n int64) sdkmath.Int { return sdkmath.NewInt(n).Mul(sdkmath.NewInt(1000000000000000000)) }
 
 func newDriver(tier string) *driver {
-	w := world.New(world.Options{NumAccounts: 5, NumVals: 2, FastGov: true, SlashWindow: 10, UnbondingTime: 30 * time.Second,
+	tax := sdk.NewDecWithPrec(2, 2)
+	w := world.New(world.Options{NumAccounts: 5, NumVals: 2, FastGov: true, SlashWindow: 10, UnbondingTime: 30 * time.Second, CommunityTax: &tax,
 		ExtraCoins: sdk.NewCoins(sdk.NewInt64Coin("atest", 1000000)),
 		Patch: func(a *app.Haqq, gs haqqtypes.GenesisState) haqqtypes.GenesisState {
 			var gg govv1.GenesisState
@@ -73,6 +74,16 @@ func newDriver(tier string) *driver {
 	must(stakingtypes.NewMsgUndelegate(A1, w.ValAddr[1], sdk.NewCoin(world.Denom, e18(1))))
 	must(stakingtypes.NewMsgBeginRedelegate(A1, w.ValAddr[1], w.ValAddr[0], sdk.NewCoin(world.Denom, e18(1))))
 	w.NextBlock(6 * time.Second)
+	// the community pool holds a non-integer amount, as on any chain that has distributed fees: an odd
+	// amount of fees in two denominations is allocated (community tax 2%) before the exploration starts
+	if err := w.App.BankKeeper.SendCoinsFromAccountToModule(w.Ctx(), w.Addrs[2], authtypes.FeeCollectorName,
+		sdk.NewCoins(sdk.NewInt64Coin(world.Denom, 1001), sdk.NewInt64Coin("atest", 33))); err != nil {
+		panic(err)
+	}
+	w.NextBlock(6 * time.Second)
+	if pool := w.App.DistrKeeper.GetFeePoolCommunityCoins(w.Ctx()); pool.IsZero() || pool.IsEqual(sdk.NewDecCoinsFromCoins(func() sdk.Coins { c, _ := pool.TruncateDecimal(); return c }()...)) {
+		panic("fixture: community pool is not fractional: " + pool.String())
+	}
 	return d
 }
 
@@ -188,7 +199,9 @@ func (d *driver) ops(w *world.World, depth int, path []string) []engine.Op {
 		})
 	}
 	msgOp("delegate(A1>V2)", func() sdk.Msg { return stakingtypes.NewMsgDelegate(A1, w.ValAddr[1], sdk.NewCoin(world.Denom, e18(1))) })
-	msgOp("undelegate(A1<V2)", func() sdk.Msg { return stakingtypes.NewMsgUndelegate(A1, w.ValAddr[1], sdk.NewCoin(world.Denom, e18(1))) })
+	msgOp("undelegate(A1<V2)", func() sdk.Msg {
+		return stakingtypes.NewMsgUndelegate(A1, w.ValAddr[1], sdk.NewCoin(world.Denom, e18(1)))
+	})
 	msgOp("redelegate(A1:V1>V2)", func() sdk.Msg {
 		return stakingtypes.NewMsgBeginRedelegate(A1, w.ValAddr[0], w.ValAddr[1], sdk.NewCoin(world.Denom, e18(1)))
 	})
@@ -256,7 +269,7 @@ func Run(tier string) int {
 	}
 	return engine.Finish(res, engine.Meta{
 		Property: Prop, Tier: tier, Level: "model_checking", Start: start,
-		Rule: "all sequences <= depth over 10 operations (double-sign evidence per validator with an early infraction height so that unbonding and redelegating stake is slashed too, 7-block downtime window, delegate / undelegate / redelegate, vetoed / no-quorum / under-funded proposal with a two-denomination deposit, plain block) from a fixture holding bonded, unbonding and redelegating stake; conservation oracle around every virtual block boundary; non-trivial = boundary at which coins were taken, distinct by (source, amount)",
+		Rule:   "all sequences <= depth over 10 operations (double-sign evidence per validator with an early infraction height so that unbonding and redelegating stake is slashed too, 7-block downtime window, delegate / undelegate / redelegate, vetoed / no-quorum / under-funded proposal with a two-denomination deposit, plain block) from a fixture holding bonded, unbonding and redelegating stake; conservation oracle around every virtual block boundary; non-trivial = boundary at which coins were taken, distinct by (source, amount)",
 		Bounds: map[string]any{"depth": bounds(tier)},
 		Assumptions: []string{
 			"coinomics off, community tax 0, zero fees: the community pool has no other inflow",
